@@ -675,7 +675,9 @@ pub fn gen_refs(sim: &mut Sim, shared_consumer: bool) -> Program {
                 g.stateless_on(feeder)
             };
         }
-        let kind_w: [u64; 3] = if shared_consumer { [0, 3, 2] } else { [4, 3, 2] };
+        // shared_consumer: optional() only — with handoff() rustc rejects the shape (the consumer's
+        // `drain(..)` is a live mutable borrow), with singleton() the reader panics on unwrap
+        let kind_w: [u64; 3] = if shared_consumer { [0, 1, 0] } else { [4, 3, 2] };
         let hoff = match g.sim.weighted("state_kind", &kind_w) {
             0 => {
                 let p = pers(g.sim);
